@@ -82,11 +82,13 @@ def handlePOp (acc : Acc) (h : FHist) (kv : KV) (line : String) : Acc × FHist :
       let acc := if wf && !(Spec.C18F.latestOk pre res) then acc.report "SPECFAIL" "C18" "feed-latest-not-last-submission" line else acc
       -- the vAMM parses this answer as a bare number (C07): record whether that parse works
       let acc := if ok && !kv.bool "scalar" then acc.report "SPECFAIL" "C07" "feed-getprice-not-a-scalar" line else acc
+      let acc := match getPrice pre with | .error e => acc.cover s!"feed.{op}:{errTagOf e}" | .ok _ => acc
       if exOpt (getPrice pre) == res then acc else acc.report "DISAGREE" "C18" "feed-getprice" line
     | "q_prev" =>
       let res := optRound kv
       let n := kv.nat "n"
       let acc := if wf && !(Spec.C18F.previousOk pre n res) then acc.report "SPECFAIL" "C18" "feed-previous-not-nth-submission" line else acc
+      let acc := match getPrevious pre n with | .error e => acc.cover s!"feed.{op}:{errTagOf e}" | .ok _ => acc
       if exOpt (getPrevious pre n) == res then acc else acc.report "DISAGREE" "C18" "feed-getprevious" line
     | "q_twap" =>
       let iv := kv.nat "iv"
